@@ -31,8 +31,9 @@ def main():
     from AegeanTools import BANE
     out = {"outcome": "returned"}
     try:
-        res = BANE.filter_image(im, None, step_size=(spec["grid"], spec["grid"]),
-                                box_size=(spec["box"], spec["box"]), cores=spec["cores"],
+        g, b = spec["grid"], spec["box"]
+        res = BANE.filter_image(im, None, step_size=tuple(g) if isinstance(g, list) else (g, g),
+                                box_size=tuple(b) if isinstance(b, list) else (b, b), cores=spec["cores"],
                                 mask=spec["mask"], nslice=spec["nslice"])
         bkg, rms = res
         h = hashlib.sha256()
